@@ -1503,7 +1503,7 @@ func lex4(c *Ctx) {
 	}
 	for _, es := range m.emitSites() {
 		cv := es.in
-		kinds := kindsOf(es.kind)
+		kinds := kindsOfAt(es.kind, es.in.Block())
 		key := fmt.Sprintf("%s:emit[%s]@%s", Q(fn), strings.Join(kinds, "|"), relLine(c, fn, cv.Pos()))
 		var problems []string
 		text := es.text
@@ -1958,7 +1958,36 @@ func lex4(c *Ctx) {
 }
 
 // kindsOf lists the constant token kinds a value can be.
-func kindsOf(v ssa.Value) []string {
+func kindsOf(v ssa.Value) []string { return kindsOfAt(v, nil) }
+
+// phiEdgeExcluded: edge i of phi x cannot be the one taken when control is at block `at`, because a
+// boolean phi of the same block carries a constant on that edge and is known to have the other value
+// at `at` (`typ, ok := helper(c); if ok { emit(typ) }` once the helper is inlined: the edge that brings
+// the "nothing" kind also brings ok == false).
+func phiEdgeExcluded(x *ssa.Phi, i int, at *ssa.BasicBlock) bool {
+	if at == nil {
+		return false
+	}
+	for _, in := range x.Block().Instrs {
+		g, ok := in.(*ssa.Phi)
+		if !ok {
+			break
+		}
+		if g == x || len(g.Edges) != len(x.Edges) {
+			continue
+		}
+		k, isK := g.Edges[i].(*ssa.Const)
+		if !isK || k.Value == nil || k.Value.Kind() != constant.Bool {
+			continue
+		}
+		if ir.HoldsAt(g, !constant.BoolVal(k.Value), at) {
+			return true
+		}
+	}
+	return false
+}
+
+func kindsOfAt(v ssa.Value, at *ssa.BasicBlock) []string {
 	var out []string
 	var walk func(v ssa.Value)
 	seen := map[ssa.Value]bool{}
@@ -1973,7 +2002,10 @@ func kindsOf(v ssa.Value) []string {
 				out = append(out, constant.StringVal(x.Value))
 			}
 		case *ssa.Phi:
-			for _, e := range x.Edges {
+			for i, e := range x.Edges {
+				if phiEdgeExcluded(x, i, at) {
+					continue
+				}
 				walk(e)
 			}
 		case *ssa.Extract:
@@ -2490,7 +2522,7 @@ func lex6(c *Ctx) {
 	scanned, fixed := map[string]bool{}, map[string]bool{}
 	for _, es := range m.emitSites() {
 		_, isConst := ir.ConstString(es.text)
-		for _, k := range kindsOf(es.kind) {
+		for _, k := range kindsOfAt(es.kind, es.in.Block()) {
 			emitted[k] = true
 			if isConst {
 				fixed[k] = true
